@@ -18,4 +18,4 @@ ASSUMPTIONS = ["serde/toml/clap/ec4rs behave as documented; derive expansions ar
 
 def run(ctx):
     return [r_cfg.rule_convert(ctx, "C20"), r_cfg.rule_overrides(ctx, "C20"), r_cfg.rule_deny_unknown(ctx, "C20"),
-            r_cfg.rule_editorconfig(ctx, "C20"), r_cfg.rule_override_last(ctx, "C20"), r_cfg.rule_config_errors(ctx, "C20"), r_cfg.rule_ec_path(ctx, "C20")]
+            r_cfg.rule_editorconfig(ctx, "C20"), r_cfg.rule_override_last(ctx, "C20"), r_cfg.rule_config_errors(ctx, "C20"), r_cfg.rule_ec_path(ctx, "C20"), r_cfg.rule_ec_per_file(ctx, "C20")]
